@@ -479,6 +479,10 @@ def run(ctx):
                 if rng.random() < 0.7:
                     o["sp_permit_cpp11_shift"] = "true"
                 jobs.append(pipeline.Job("remove-all", sc.cfg(None, o), p, lang, {"opts": o, "text": txt, "kind": "remove-all"}))
+            # every spacing option = force / add: a token that is torn apart (`0x1p -2`, `- >`, `u8 "x"`) shows up here
+            for val in ("force", "add"):
+                o = {k: val for k in multi_pool if k.startswith("sp_") and reg[k]["kind"] == "iarf" and not k.startswith("sp_cmt_cpp")}
+                jobs.append(pipeline.Job("force-all", sc.cfg(None, o), p, lang, {"opts": o, "text": txt, "kind": "force-all"}))
         # the code-modifying options are few: every mod_ option at every enumerated/boundary value on every C++ program and some C/OC programs of every run
         if True:
             cpp = [pr for pr in progs if pr[1] == "CPP"]
